@@ -63,7 +63,10 @@ class SeqDriver:
         self.dbapi = None
         self.handles = []
         self.evs = []
-        gc.disable()
+        self.resets = 0
+        gc.collect()
+        gc.freeze()           # the state graph lives in this process: keep it out of every later collection
+        gc.disable()          # no finalizer may run at a moment the walk did not choose (Drop is an explicit step)
 
     # ------------------------------------------------------------------ plumbing
     def _mkpool(self):
@@ -113,7 +116,9 @@ class SeqDriver:
                 except Exception:
                     pass
             self.pool = None
-            gc.collect()
+            self.resets += 1
+            if self.resets % 300 == 0:
+                gc.collect()
 
     def _run(self, fn):
         if self.vloop is not None:
